@@ -101,3 +101,6 @@ mod env {
 pub fn all_main_commands() -> Vec<&'static str> {
     vec!["thanm", "thstd"]
 }
+
+#[cfg(truth_verif)]
+pub mod verif_hooks;
